@@ -46,6 +46,7 @@ type c20Thread struct {
 	gate chan struct{}
 	rnd  *rand.Rand
 	wtok int
+	nnew int
 	// position, guarded by run.mu
 	opi   int    // 1-based index of the current operation
 	arr   int    // number of hook arrivals in the current operation (= pc of the instruction)
@@ -63,6 +64,7 @@ type c20Run struct {
 	dserv  ipld.DAGService
 	rt     *Root
 	root   *Directory
+	sub    *Directory // "/d": holds f3 (child->parent propagation through two directory levels)
 	files  map[string]*File
 	locks  map[any][2]string
 	objs   map[[2]string]any
@@ -125,11 +127,20 @@ func c20NewRun(gated, yield bool) *c20Run {
 	if _, err := r.root.Mkdir("d"); err != nil {
 		panic(err)
 	}
-	for _, n := range []string{"f1", "f2"} {
-		if err := r.root.AddChild(n, dag.NodeWithData(ft.FilePBData(nil, 0))); err != nil {
+	sub, err := r.root.Child("d")
+	if err != nil {
+		panic(err)
+	}
+	r.sub = sub.(*Directory)
+	for _, n := range c20Files {
+		dir := r.root
+		if n == "f3" { // the file inside the sub-directory
+			dir = r.sub
+		}
+		if err := dir.AddChild(n, dag.NodeWithData(ft.FilePBData(nil, 0))); err != nil {
 			panic(err)
 		}
-		c, err := r.root.Child(n)
+		c, err := dir.Child(n)
 		if err != nil {
 			panic(err)
 		}
@@ -138,14 +149,12 @@ func c20NewRun(gated, yield bool) *c20Run {
 		r.reg(&f.desclock, "desc", n)
 		r.reg(&f.nodeLock, "node", n)
 	}
-	sub, err := r.root.Child("d")
-	if err != nil {
-		panic(err)
-	}
 	r.reg(&r.root.lock, "dir", "root")
-	r.reg(&sub.(*Directory).lock, "dir", "sub")
+	r.reg(&r.sub.lock, "dir", "sub")
 	return r
 }
+
+var c20Files = []string{"f1", "f2", "f3"}
 
 func (r *c20Run) reg(p any, c, id string) {
 	r.locks[p] = [2]string{c, id}
@@ -153,7 +162,7 @@ func (r *c20Run) reg(p any, c, id string) {
 }
 
 // lockName is the projection of a hooked object.  Must be called with r.mu held.
-func (r *c20Run) lockName(obj any, th *c20Thread) [2]string {
+func (r *c20Run) lockName(obj any, th *c20Thread, site string) [2]string {
 	if f, ok := obj.(*File); ok {
 		if n, ok := r.fname[f]; ok {
 			return [2]string{"val", n}
@@ -163,8 +172,16 @@ func (r *c20Run) lockName(obj any, th *c20Thread) [2]string {
 	if n, ok := r.locks[obj]; ok {
 		return n
 	}
-	if _, ok := obj.(*sync.Mutex); ok { // a descriptor mutex: descriptors are never shared between threads
+	if _, ok := obj.(*sync.Mutex); ok {
+		// an unregistered mutex locked in fd.go is the mutex of the calling thread's own descriptor (descriptors
+		// are never shared between threads); one locked in dir.go is the lock of a Directory object the thread
+		// has just created itself (Mkdir of a new name)
 		n := [2]string{"mu", "t" + strconv.Itoa(th.idx)}
+		if strings.Contains(site, ":dir.go:") {
+			n = [2]string{"dir", "n" + strconv.Itoa(th.idx)}
+		} else if !strings.Contains(site, ":fd.go:") {
+			return [2]string{"?", fmt.Sprintf("%p", obj)}
+		}
 		r.locks[obj], r.objs[n] = n, obj
 		return n
 	}
@@ -187,7 +204,7 @@ func c20HookFn(phase, kind string, obj any, site string, val ipld.Node) {
 	}
 	if phase == "pre" {
 		r.mu.Lock()
-		n := r.lockName(obj, th)
+		n := r.lockName(obj, th, site)
 		th.arr++
 		th.state, th.acq, th.cur, th.site = "gate", false, [3]string{kind, n[0], n[1]}, site
 		if !r.gated {
@@ -258,6 +275,20 @@ func (r *c20Run) exec(th *c20Thread, op, fn string) (string, []int) {
 		th.wtok++
 		_, err := th.fd.Write([]byte{byte(th.idx*10 + th.wtok)})
 		return es(err), nil
+	case "WriteAt": // the positional write API: same token, at the end of the descriptor's view
+		sz, err := th.fd.Size()
+		if err != nil {
+			return err.Error(), nil
+		}
+		th.wtok++
+		_, err = th.fd.WriteAt([]byte{byte(th.idx*10 + th.wtok)}, sz)
+		return es(err), nil
+	case "Trunc": // Truncate as a modifying call: one more (zero) byte = token 0
+		sz, err := th.fd.Size()
+		if err != nil {
+			return err.Error(), nil
+		}
+		return es(th.fd.Truncate(sz + 1)), nil
 	case "Read":
 		b := make([]byte, 64)
 		n, err := th.fd.CtxReadFull(r.ctx, b)
@@ -321,6 +352,58 @@ func (r *c20Run) exec(th *c20Thread, op, fn string) (string, []int) {
 		return es(r.root.Flush()), nil
 	case "Mv":
 		return es(Mv(r.rt, "/"+fn, "/f9")), nil
+	case "MvSub":
+		return es(Mv(r.rt, "/d", "/e")), nil
+	case "RootFlush":
+		return es(r.rt.Flush()), nil
+	case "RootSetMode":
+		return es(r.root.SetMode(os.FileMode(0o700 + th.idx))), nil
+	case "AddChild", "SubAddChild": // a new name: state-changing (program level only)
+		th.nnew++
+		dir := r.root
+		if op == "SubAddChild" {
+			dir = r.sub
+		}
+		return es(dir.AddChild(fmt.Sprintf("a%d_%d", th.idx, th.nnew), dag.NodeWithData(ft.FilePBData(nil, 0)))), nil
+	case "MkdirNew":
+		th.nnew++
+		_, err := r.root.Mkdir(fmt.Sprintf("m%d_%d", th.idx, th.nnew))
+		return es(err), nil
+	// ---- the sub-directory d (its parent is the root directory)
+	case "SubSetMode":
+		return es(r.sub.SetMode(os.FileMode(0o700 + th.idx))), nil
+	case "SubSetModTime":
+		return es(r.sub.SetModTime(time.Unix(int64(2000+th.idx), 0))), nil
+	case "ChmodSub":
+		return es(Chmod(r.rt, "/d", os.FileMode(0o710+th.idx))), nil
+	case "TouchSub":
+		return es(Touch(r.rt, "/d", time.Unix(int64(3000+th.idx), 0))), nil
+	case "SubMode":
+		_, err := r.sub.Mode()
+		return es(err), nil
+	case "SubModTime":
+		_, err := r.sub.ModTime()
+		return es(err), nil
+	case "SubGetNode":
+		_, err := r.sub.GetNode()
+		return es(err), nil
+	case "SubFlush":
+		return es(r.sub.Flush()), nil
+	case "SubList":
+		_, err := r.sub.List(r.ctx)
+		return es(err), nil
+	case "SubListNames":
+		_, err := r.sub.ListNames(r.ctx)
+		return es(err), nil
+	case "SubLookup":
+		_, err := r.sub.Child("f3")
+		return es(err), nil
+	case "SubUnlink": // a missing name: same critical section
+		err := r.sub.Unlink("zz")
+		if err == os.ErrNotExist {
+			err = nil
+		}
+		return es(err), nil
 	}
 	return "unknown op " + op, nil
 }
@@ -378,7 +461,7 @@ func (r *c20Run) start(scen [][][2]string, seed int64) chan struct{} {
 // flushed root node (what a restart / a reader of the published root sees).
 func (r *c20Run) finalState() M {
 	res := M{}
-	for _, n := range []string{"f1", "f2"} {
+	for _, n := range c20Files {
 		res[n] = c20Toks(r.ctx, r.dserv, r.files[n].node)
 	}
 	rn, err := r.root.GetNode()
@@ -391,11 +474,15 @@ func (r *c20Run) finalState() M {
 		res["rooterr"] = err.Error()
 		return res
 	}
-	for _, n := range []string{"f1", "f2"} {
+	for _, n := range c20Files {
 		key := "root_" + n
-		fsn, err := Lookup(rt2, "/"+n)
-		if err != nil { // the Mv run moved f2 to f9
-			fsn, err = Lookup(rt2, "/f9")
+		pth, alt := "/"+n, "/f9" // the Mv run moved f2 to f9
+		if n == "f3" {
+			pth, alt = "/d/f3", "/e/f3" // the MvSub run moved d to e
+		}
+		fsn, err := Lookup(rt2, pth)
+		if err != nil {
+			fsn, err = Lookup(rt2, alt)
 		}
 		if err != nil {
 			res[key] = []int{-4}
@@ -444,12 +531,50 @@ func c20Sess(name, f string) [][2]string {
 		return [][2]string{{"OpenWn", f}, {"FdFlush", f}, {"Write", f}, {"Close", f}, {"OpenWn", f}, {"FdFlush", f}, {"Close", f}}
 	case "R":
 		return [][2]string{{"OpenR", f}, {"Read", f}, {"Close", f}}
+	case "Wa": // the other write APIs, each one in the descriptor state "flushed"
+		return [][2]string{{"OpenW", f}, {"WriteAt", f}, {"FdFlush", f}, {"Trunc", f}, {"FdFlush", f}, {"WriteAt", f}, {"Close", f}}
 	}
 	return [][2]string{{name, f}}
 }
 
 var c20Singles = []string{"FileFlush", "FileSync", "Size", "GetNode", "Mode", "ModTime", "SetMode", "SetModTime"}
 var c20DirOps = []string{"List", "ListNames", "Lookup", "Mkdir", "Unlink", "DirGetNode"}
+
+// operations of the sub-directory d that do not change any other operation's program
+var c20SubOps = []string{"SubSetMode", "SubSetModTime", "ChmodSub", "TouchSub", "SubMode", "SubModTime", "SubGetNode",
+	"SubList", "SubListNames", "SubLookup", "SubUnlink"}
+
+// state-changing directory operations: recorded alone, model-checked at program level only
+var c20ProgOnly = []string{"DirFlush", "Uncache0", "RootFlush", "AddChild", "SubAddChild", "MkdirNew", "SubFlush", "MvSub"}
+
+// c20FdSessions = spec FdAll(f): Open (sync | not sync), every sequence of at most depth calls out of
+// Write / WriteAt / Trunc / FdFlush, Close.
+func c20FdSessions(f string, depth int) [][][2]string {
+	calls := []string{"Write", "WriteAt", "Trunc", "FdFlush"}
+	bodies := [][]string{{}}
+	last := bodies
+	for k := 0; k < depth; k++ {
+		var next [][]string
+		for _, b := range last {
+			for _, c := range calls {
+				next = append(next, append(append([]string{}, b...), c))
+			}
+		}
+		bodies = append(bodies, next...)
+		last = next
+	}
+	var out [][][2]string
+	for _, o := range []string{"OpenW", "OpenWn"} {
+		for _, b := range bodies {
+			s := [][2]string{{o, f}}
+			for _, c := range b {
+				s = append(s, [2]string{c, f})
+			}
+			out = append(out, append(s, [2]string{"Close", f}))
+		}
+	}
+	return out
+}
 
 func c20ScenJSON(scen [][][2]string) [][][]string {
 	out := make([][][]string, len(scen))
@@ -498,17 +623,22 @@ func c20Record(t *testing.T) {
 	if what == "single" {
 		// every operation (and every descriptor state of Flush/Close) alone on a fresh root
 		var list [][][2]string
-		for _, f := range []string{"f1", "f2"} {
-			for _, n := range []string{"W", "W2", "W0", "Wn", "Wn0", "Wnf", "R"} {
+		for _, f := range c20Files {
+			for _, n := range []string{"W", "W2", "W0", "Wn", "Wn0", "Wnf", "R", "Wa"} {
 				list = append(list, c20Sess(n, f))
 			}
 			for _, n := range c20Singles {
 				list = append(list, c20Sess(n, f))
 			}
 		}
-		for _, n := range append(append([]string{}, c20DirOps...), "DirFlush", "Uncache0") {
+		for _, n := range append(append(append([]string{}, c20DirOps...), c20SubOps...), c20ProgOnly...) {
 			list = append(list, c20Sess(n, "f1"))
 		}
+		for i := 0; i < 3; i++ { // like DirGetNode below (cacheSync of the root), then the re-lock
+			list = append(list, c20Sess("RootSetMode", "f1"))
+		}
+		// every descriptor state sequence of the write APIs
+		list = append(list, c20FdSessions("f1", vEnvInt("C20_FDDEPTH", 2))...)
 		for i := 0; i < 40; i++ { // cacheSync walks a Go map: collect the orders it really takes
 			list = append(list, c20Sess("DirGetNode", "f1"))
 		}
@@ -526,14 +656,19 @@ func c20Record(t *testing.T) {
 	n := vEnvInt("C20_RUNS", 30)
 	pick := func() [][2]string {
 		f := "f1"
-		if rnd.Intn(4) == 0 {
+		switch rnd.Intn(6) {
+		case 0:
 			f = "f2"
+		case 1, 2:
+			f = "f3" // inside the sub-directory: updates propagate through d to the root
 		}
 		switch k := rnd.Intn(10); {
 		case k < 3:
-			return c20Sess([]string{"W", "Wn", "R"}[rnd.Intn(3)], f)
-		case k < 8:
+			return c20Sess([]string{"W", "Wn", "R", "Wa"}[rnd.Intn(4)], f)
+		case k < 7:
 			return c20Sess(c20Singles[rnd.Intn(len(c20Singles))], f)
+		case k < 8:
+			return c20Sess(c20SubOps[rnd.Intn(len(c20SubOps))], "f1")
 		default:
 			return c20Sess(c20DirOps[rnd.Intn(len(c20DirOps))], "f1")
 		}
